@@ -205,8 +205,10 @@ class UnitsSerializer(Serializer):
             if matched_regex:
                 data = matched_regex.group(1)
             if data.startswith('nan'):
+                # parse the units as "1 <units>" so that reciprocal
+                # units such as "nan / second" are understood too
                 unit_str = data[len('nan'):].strip()
-                unit_data = math.nan * units(unit_str)
+                unit_data = math.nan * units(f'1 {unit_str}')
             else:
                 unit_data = units(data)
             if unit is not None:
